@@ -983,3 +983,189 @@ Definition alias_two_pass (f : row -> row) (t : twopass) (cached : batch) : batc
    and transforms the aggregate of the input taken twice. *)
 Definition stats_noby_two_pass (c : command) (t : twopass) (rows : batch) : batch :=
   map (tp_apply t (tp_summary t (run c [rows]))) (run c [rows ++ rows]).
+
+(* ====================================================================== *)
+(* Level D: a DataProcessor with SEVERAL input streams (merge + leftovers)  *)
+(* ====================================================================== *)
+(* dataprocessor.go getStreamInput, `default:` branch (more than one stream, not an order-ignoring
+   bottleneck): every call fetches from every stream that is not exhausted
+   (fetchFromAllStreamsWithData), merges the fetched IQRs with iqr.MergeIQRs until ONE of them is
+   used up, applies mergeSettings.limit / numReturned, and hands the unused remainder of every
+   other IQR back to its CachedStream (SetUnusedDataFromLastFetch), which returns it first at the
+   next Fetch.  The leftovers are part of the state of the streams: a consumer that stops reading
+   early (head) leaves them behind, and CachedStream.Rewind() has to drop them. *)
+
+(* streamer.go CachedStream over a list source ([ew] = io.EOF comes with the last batch) *)
+Record cstream := mkCs {
+  cs_rest : list batch;        (* what the wrapped stream has not returned yet *)
+  cs_unused : option batch;    (* unusedDataFromLastFetch *)
+  cs_exh : bool }.             (* isExhausted *)
+
+Definition cs_fetch (ew : bool) (c : cstream) : option batch * cstream :=
+  if cs_exh c then (None, c)
+  else match cs_unused c with
+       | Some b => (Some b, mkCs (cs_rest c) None false)
+       | None =>
+         match cs_rest c with
+         | [] => (None, mkCs [] None true)
+         | b :: r => (Some b, mkCs r None (match r with [] => ew | _ => false end))
+         end
+       end.
+
+(* SetUnusedDataFromLastFetch *)
+Definition cs_set_unused (o : option batch) (c : cstream) : cstream :=
+  mkCs (cs_rest c) o (match o with Some _ => false | None => cs_exh c end).
+
+(* fetchFromAllStreamsWithData: what every stream returned (None: exhausted / nil with io.EOF).
+   The code keeps the fetched IQRs in a slice `iqrs` with their `streamIndices`, in the order in
+   which the fetching goroutines finish; the model keeps them by stream position *)
+Fixpoint fetch_all (ew : bool) (cs : list cstream) : list (option batch) * list cstream :=
+  match cs with
+  | [] => ([], [])
+  | c :: t =>
+    let '(o, c') := cs_fetch ew c in
+    let '(os, t') := fetch_all ew t in
+    (o :: os, c' :: t')
+  end.
+
+Definition is_nil {A : Type} (l : list A) : bool := match l with [] => true | _ => false end.
+Definition is_none {A : Type} (o : option A) : bool := match o with None => true | _ => false end.
+Definition opt_list (o : option batch) : batch := match o with Some b => b | None => [] end.
+Fixpoint upd_nth {A : Type} (i : nat) (f : A -> A) (l : list A) : list A :=
+  match l, i with
+  | [], _ => []
+  | x :: r, O => f x :: r
+  | x :: r, S j => x :: upd_nth j f r
+  end.
+(* remove the first record of the i-th list *)
+Definition pop_at (i : nat) (its : list batch) : list batch := upd_nth i (@tl row) its.
+
+Section MergeIQRs.
+  Variable less : row -> row -> bool.
+
+  (* utils.IndexOfMin over the next record of every list: the first minimal one (a later list
+     replaces the candidate only if its record is strictly smaller); empty lists have no record *)
+  Fixpoint min_head (i : nat) (its : list batch) (best : option (nat * row)) : option (nat * row) :=
+    match its with
+    | [] => best
+    | b :: t =>
+      match b with
+      | [] => min_head (S i) t best
+      | r :: _ =>
+        match best with
+        | None => min_head (S i) t (Some (i, r))
+        | Some (_, br) => if less r br then min_head (S i) t (Some (i, r)) else min_head (S i) t best
+        end
+      end
+    end.
+
+  (* the loop of iqr.MergeIQRs: append the smallest next record until the IQR it came from is
+     used up; result = merged records, position of the used-up IQR, what is left of every IQR
+     (a stream that returned no IQR has the empty list and is never chosen) *)
+  Fixpoint merge_loop (fuel : nat) (its : list batch) : batch * nat * list batch :=
+    match fuel with
+    | O => ([], O, its)
+    | S f =>
+      match min_head O its None with
+      | None => ([], O, its)
+      | Some (i, r) =>
+        let its' := pop_at i its in
+        if is_nil (nth i its' []) then ([r], i, its')
+        else let '(m, j, its2) := merge_loop f its' in (r :: m, j, its2)
+      end
+    end.
+  (* `for idx, iqrToCheck := range iqrs { if iqrToCheck.NumberOfRecords() == 0 { return iqr, idx, nil } }` *)
+  Fixpoint first_nil (i : nat) (os : list (option batch)) : option nat :=
+    match os with
+    | [] => None
+    | Some [] :: _ => Some i
+    | _ :: t => first_nil (S i) t
+    end.
+  Definition merge_iqrs (os : list (option batch)) : batch * nat * list batch :=
+    let its := map opt_list os in
+    match first_nil O os with
+    | Some i => ([], i, its)
+    | None => merge_loop (length (concat its)) its
+    end.
+
+  (* the specification: the k-way merge of the WHOLE streams (always the first minimal next record) *)
+  Fixpoint kmerge (fuel : nat) (ls : list batch) : batch :=
+    match fuel with
+    | O => []
+    | S f => match min_head O ls None with
+             | None => []
+             | Some (i, r) => r :: kmerge f (pop_at i ls)
+             end
+    end.
+  Definition kmerge_all (ls : list batch) : batch := kmerge (length (concat ls)) ls.
+
+  Variable limit : option N.     (* mergeSettings.limit *)
+  Variable ew : bool.
+
+  Record mstate := mkMs { ms_cs : list cstream; ms_ret : N (* mergeSettings.numReturned *) }.
+
+  (* every stream that returned an IQR gets SetUnusedDataFromLastFetch: nil for the used-up IQR,
+     the remainder for every other one *)
+  Fixpoint put_unused (j exh : nat) (os : list (option batch)) (rems : list batch) (cs : list cstream)
+    : list cstream :=
+    match os, rems, cs with
+    | o :: os', r :: rems', c :: cs' =>
+      (match o with
+       | Some _ => cs_set_unused (if Nat.eqb j exh then None else Some r) c
+       | None => c
+       end) :: put_unused (S j) exh os' rems' cs'
+    | _, _, _ => cs
+    end.
+
+  (* one call of getStreamInput; None = (nil, io.EOF) *)
+  Definition get_stream_input (s : mstate) : option batch * mstate :=
+    let '(os, cs1) := fetch_all ew (ms_cs s) in
+    if forallb is_none os then (None, mkMs cs1 (ms_ret s))           (* len(iqrs) == 0 *)
+    else
+      let '(m, exh, rems) := merge_iqrs os in
+      match limit with
+      | Some L =>
+        let this := L - ms_ret s in
+        if this =? 0 then (None, mkMs cs1 (ms_ret s))     (* the fetched IQRs are dropped *)
+        else let m' := takeN this m in
+             (Some m', mkMs (put_unused O exh os rems cs1) (ms_ret s + N.of_nat (length m')))
+      | None => (Some m, mkMs (put_unused O exh os rems cs1) (ms_ret s + N.of_nat (length m)))
+      end.
+
+  (* the whole pass from a state: the successive getStreamInput results with the state after each *)
+  Fixpoint m_events (fuel : nat) (s : mstate) : list (batch * mstate) * (option batch * mstate) :=
+    match fuel with
+    | O => ([], (None, s))
+    | S f =>
+      match get_stream_input s with
+      | (None, s') => ([], (None, s'))
+      | (Some b, s') => let '(evs, fin) := m_events f s' in ((b, s') :: evs, fin)
+      end
+    end.
+  (* every call with a result uses up one IQR (a batch or a leftover) of some stream *)
+  Definition m_fuel (s : mstate) : nat :=
+    S (S (fold_right (fun c a => S (length (cs_rest c)) + a)%nat O (ms_cs s))).
+
+  (* DataProcessor.Rewind: numReturned = 0, every CachedStream.Rewind(): the wrapped stream from the
+     beginning, isExhausted = false, unusedDataFromLastFetch = nil.  [keep = true] is a Rewind
+     that forgets the last assignment (kept to show that it is needed) *)
+  Fixpoint rewind_all (keep : bool) (srcs : list (list batch)) (cs : list cstream) : list cstream :=
+    match srcs with
+    | [] => []
+    | a :: t =>
+      mkCs a (if keep then match cs with c :: _ => cs_unused c | [] => None end else None) false
+      :: rewind_all keep t (tl cs)
+    end.
+
+  (* the merged input of a DataProcessor with the streams [srcs], as a stream *)
+  Definition merge_stream_gen (keep : bool) (srcs : list (list batch)) : stream :=
+    mkStream mstate (mkMs (map (fun a => mkCs a None false) srcs) 0)
+      (fun s => Some (m_events (m_fuel s) s))
+      (fun s => mkMs (rewind_all keep srcs (ms_cs s)) 0).
+  Definition merge_stream : list (list batch) -> stream := merge_stream_gen false.
+
+  (* the rows of a whole pass over the merged input *)
+  Definition merge_rows (srcs : list (list batch)) : batch :=
+    let s := merge_stream srcs in
+    let '(evs, fin) := m_events (m_fuel (sinit s)) (sinit s) in ev_rows evs fin.
+End MergeIQRs.
